@@ -1,4 +1,5 @@
 import Driver.AstJson
+import Platypus.Model.Parse
 import Platypus.Spec.OutcomeSem
 import Platypus.Model.Check
 import Std.Data.HashMap
@@ -248,7 +249,25 @@ def run (g : GOracle) (j : Json) : Json :=
     let wantB := ((AstJson.useSites (J.get j "asts") []).filter fun (_, n) => names.contains n).map fun (s, n) => s!"{s}:{J.toHex n}"
     let haveB := l.bounds.map fun (s, n) => s!"{s}:{J.toHex n}"
     let bindOk := io == "notloaded" || io == "loaderr" || wantB.toArray.qsort (· < ·) == haveB.toArray.qsort (· < ·)
-    let specGeneric := io != "panic" && io != "crash" && implWellTyped obs && c10.1 && c14.1 && bindOk
+    -- a script rejected at the parse stage must be a text the parser model rejects too (the model is
+    -- history-free: a pooled parser left in a bad state by an earlier load shows here)
+    let parseNote : String := Id.run do
+      let mut note := ""
+      match J.get j "loaderrs" with
+      | .obj kvs =>
+        for (name, le) in kvs.toArray do
+          if J.str (J.get le "stage") == "parse" then
+            let src := ((J.arr (J.get j "scripts")).toList.find? fun s => J.str (J.get s "name") == name).map fun s => J.hx (J.get s "src")
+            match src with
+            | some sb =>
+              let its := Platypus.Lex.lexAll sb
+              if !(its.any fun i => i.typ = .NUMBER && !Platypus.Parse.numModelled i.val) then
+                if (Platypus.Parse.parseItems its).isSome then
+                  note := s!"script {name} was rejected by the parser ({J.str (J.get le "msg")}) although its text parses"
+            | none => pure ()
+      | _ => pure ()
+      return note
+    let specGeneric := io != "panic" && io != "crash" && implWellTyped obs && c10.1 && c14.1 && bindOk && parseNote == ""
     match checkAll g l with
     | .error (.inl q) => J.obj [("id", J.get j "id"), ("agree", true), ("spec", specGeneric), ("need", J.toHex q), ("note", "")]
     | .error (.inr msg) => J.obj [("id", J.get j "id"), ("agree", false), ("spec", specGeneric), ("note", msg)]
@@ -276,6 +295,6 @@ def run (g : GOracle) (j : Json) : Json :=
         return (d0, n)
       let agree := d == ""
       J.obj [("id", J.get j "id"), ("agree", agree), ("spec", specGeneric && (agree || !strict)),
-             ("note", if !bindOk then s!"use() call sites bound to {haveB}, expected {wantB} | " ++ d else if !c10.1 then c10.2 ++ " | " ++ d else if !c14.1 then c14.2 ++ " | " ++ d else d), ("orders", tried), ("moutcome", m0.outcome), ("semok", semCheck g l 0)]
+             ("note", if parseNote != "" then parseNote ++ " | " ++ d else if !bindOk then s!"use() call sites bound to {haveB}, expected {wantB} | " ++ d else if !c10.1 then c10.2 ++ " | " ++ d else if !c14.1 then c14.2 ++ " | " ++ d else d), ("orders", tried), ("moutcome", m0.outcome), ("semok", semCheck g l 0)]
 
 end DrvRun
